@@ -6,6 +6,7 @@ import (
 	"sync"
 	"testing"
 	"testing/synctest"
+	"time"
 
 	"github.com/fogfish/golem/pipe/v2"
 	"verif/harness/bubble"
@@ -46,15 +47,19 @@ type unb struct {
 	sndClosed  bool
 	maxBacklog int
 	parStarted map[int]bool // values handed to independent one-shot senders
-	parDone    map[int]bool // ... whose send returned
+	parDone    map[int]bool // ... whose send completed
+	parBack    int          // ... whose goroutine has returned (send completed, gave up, or panicked on the closed channel)
 	parSeen    map[int]bool
 	chainGot   int
 	refills    int
 }
 
 func (u *unb) send(n int) {
-	if u.cancelled && u.allDone() || u.sndClosed {
-		return // no send is started after a completed cancel or after the sender closed
+	if u.sndClosed || u.cancelled && !u.sc.CancelAtEnd {
+		// no send is started after the sender closed; after a cancel only in the scenarios that say so (the library
+		// closes the send side on cancel: such a send panics in the sender, completes - and then must be delivered -
+		// or, if the stage never started its pump, would wait for ever)
+		return
 	}
 	prev := u.lastDone
 	done := make(chan struct{})
@@ -145,14 +150,19 @@ func (u *unb) do(m Move) string {
 		u.send(max(m.M, 1))
 	case "par":
 		// M independent senders, one value each: several goroutines can be parked on the send side at once
-		if u.cancelled && u.allDone() || u.sndClosed {
+		if u.sndClosed || u.cancelled && !u.sc.CancelAtEnd {
 			return ""
 		}
 		for k := 0; k < max(m.M, 1); k++ {
 			v := parBase + len(u.parStarted)
 			u.parStarted[v] = true
 			go func() {
-				defer func() { recover() }()
+				defer func() {
+					recover()
+					u.mu.Lock()
+					u.parBack++
+					u.mu.Unlock()
+				}()
 				select {
 				case u.snd <- v:
 					u.mu.Lock()
@@ -185,6 +195,8 @@ func (u *unb) do(m Move) string {
 				}
 			}
 		}
+	case "wait":
+		time.Sleep(time.Duration(max(m.M, 1)) * time.Second)
 	case "cancel":
 		u.cancelled = true
 		u.cancel()
@@ -234,7 +246,7 @@ func (u *unb) do(m Move) string {
 }
 
 func runUnbound(sc *Scenario) (res Result) {
-	ctx, cancel := context.WithCancel(context.Background())
+	ctx, cancel := newCtx(sc)
 	u := &unb{sc: sc, cancel: cancel, envStop: make(chan struct{}), parStarted: map[int]bool{}, parDone: map[int]bool{}, parSeen: map[int]bool{}}
 	if sc.Gated {
 		warmUp(sc.Caps0())
@@ -362,7 +374,14 @@ func runUnbound(sc *Scenario) (res Result) {
 		if backlog == 0 && completed > 0 {
 			u.refills++
 		}
-		// a send never waits for the receiver: at quiescence every started send has returned
+		// a send never waits for the receiver: at quiescence every started send has returned (after a cancel: completed,
+		// or ended by the panic of a send on the closed channel)
+		u.mu.Lock()
+		parOut := len(u.parStarted) - u.parBack
+		u.mu.Unlock()
+		if (wasCancelled || u.cancelled) && sc.CancelAtEnd && (!u.allDone() || parOut > 0) {
+			return fail(fmt.Sprintf("a send started after the cancel is still blocked at quiescence (cap=%d, created on a cancelled context: %v): %d sends started, %d completed", sc.Caps0(), sc.PreCancel, u.started+len(u.parStarted), completed))
+		}
 		if !wasCancelled && !u.cancelled && (!u.allDone() || pending > 0) {
 			return fail(fmt.Sprintf("a send is still blocked at quiescence: %d sends started, %d completed, %d received - the sender waits for the receiver", u.started, completed, len(u.got)))
 		}
